@@ -21,6 +21,10 @@ pub enum Role {
     VertexResult,
     FragmentResult,
     ComputeParam,
+    /// element of a workgroup array whose length is an `override`
+    OverrideArrayElem,
+    /// element of an array of arrays in a storage buffer
+    NestedArrayElem,
 }
 use Role::*;
 
@@ -41,7 +45,7 @@ pub enum Shape {
 impl Shape {
     pub fn roles(self) -> &'static [Role] {
         match self {
-            Shape::Plain => &[Uniform, Storage, Workgroup, Private, PushConstant, FixedArrayElem, RtArrayElem, HelperParam, Local],
+            Shape::Plain => &[Uniform, Storage, Workgroup, Private, PushConstant, FixedArrayElem, RtArrayElem, HelperParam, Local, OverrideArrayElem, NestedArrayElem],
             Shape::VertexIn => &[VertexParam, Uniform, Storage, HelperParam, Local, RtArrayElem],
             Shape::Varying => &[VertexResult, FragmentParam, Uniform, Storage, Private, Local],
             Shape::Located => &[VertexParam, FragmentParam, FragmentResult, Storage, Workgroup, FixedArrayElem],
@@ -142,6 +146,15 @@ pub fn build(defs: &[SDef], key: String) -> Prog {
                 }
                 RtArrayElem => {
                     src.push_str(&format!("@group(0) @binding({binding}) var<storage, read> ra{i}: array<{name}>;\n"));
+                    binding += 1;
+                    globals_roots.push(i);
+                }
+                OverrideArrayElem => {
+                    src.push_str(&format!("override tile_len{i}: u32 = 4u;\nvar<workgroup> oa{i}: array<{name}, tile_len{i}>;\n"));
+                    globals_roots.push(i);
+                }
+                NestedArrayElem => {
+                    src.push_str(&format!("@group(0) @binding({binding}) var<storage, read> na{i}: array<array<{name}, 2>, 3>;\n"));
                     binding += 1;
                     globals_roots.push(i);
                 }
